@@ -89,7 +89,7 @@ fn plan(seeds: &[u16]) -> Plan {
         prefix.push((i, format!("NICK n{}", i)));
         prefix.push((i, format!("USER u{} 0 * :Real n{}", i, i)));
     }
-    let kind_i = s.pick(25);
+    let kind_i = s.pick(28);
     let mut per_conn: Vec<(usize, Vec<String>)> = vec![];
     let mut contested_nick = None;
     let mut new_channel = None;
@@ -277,6 +277,19 @@ fn plan(seeds: &[u16]) -> Plan {
                 per_conn.push((3, vec![["WHOIS n1", "PRIVMSG n1 :are you there", "ISON n1"][s.pick(3)].into()]));
             }
             "kill-vs-takeover"
+        }
+        25 | 26 | 27 => {
+            // a channel MODE by a member whose rank (or membership) is taken away at the same moment
+            for c in 0..3 {
+                prefix.push((c, "JOIN #k".into()));
+            }
+            prefix.push((0, "MODE #k +o n1".into()));
+            per_conn.push((1, vec![["MODE #k +m", "MODE #k +t", "MODE #k +o n2", "MODE #k +k key", "MODE #k +b *!*@10.0.0.3", "MODE #k -o n0"][s.pick(6)].into()]));
+            per_conn.push((0, vec![["KICK #k n1 :out", "MODE #k -o n1", "KICK #k n1,n2"][s.pick(3)].into()]));
+            if s.chance(40) {
+                per_conn.push((2, vec![["PRIVMSG #k :meanwhile", "MODE #k", "JOIN #k"][s.pick(3)].into()]));
+            }
+            "mode-vs-kick"
         }
         14..=19 => {
             // any pair of handlers: two or three connections send one or two commands each, drawn
